@@ -1,1 +1,11 @@
-/- C19 property theorems (stub: not built yet) -/
+/- C19 property theorems -/
+import ThriftVerif.Lib.AsyncPP
+import ThriftVerif.Generated.C19
+
+namespace Props.C19
+open AsyncPP
+
+/-- the skeleton extracted from the working tree is the one the proofs are about -/
+theorem facts_match : Generated.C19.facts = AsyncPP.expected := by decide
+
+end Props.C19
